@@ -325,12 +325,20 @@ impl Net {
                 Poll::Ready(Err(io::Error::from(kind)))
             }
             Some(BacklogItem::Conn(id, peer)) => {
+                // A connection that was reset while it sat in the listen
+                // queue is still handed out by accept(2) on Linux, but it is
+                // no longer connected: getpeername() fails with ENOTCONN.
+                let reset_in_backlog = n.conns.get(&id).map(|c| c.c2s.rst).unwrap_or(false);
                 drop(n);
-                self.world.log(Ev::Accepted, id, 0, 0, 0);
-                Poll::Ready(Ok((
-                    TcpStream::new(ServerEnd { net: self.clone(), conn: id }),
-                    peer,
-                )))
+                self.world.log(Ev::Accepted, id, 0, u64::from(reset_in_backlog), 0);
+                let io = ServerEnd { net: self.clone(), conn: id };
+                let stream = if reset_in_backlog {
+                    self.world.fault("reset_in_backlog");
+                    TcpStream::new(io)
+                } else {
+                    TcpStream::with_addrs(io, addr, peer)
+                };
+                Poll::Ready(Ok((stream, peer)))
             }
         }
     }
